@@ -444,6 +444,7 @@ stage COLLECT(
 pipeline INNER(
     in  int[] vals,
     out int[] ws,
+    out int[] direct,
 )
 {
     call GEN(
@@ -459,7 +460,8 @@ pipeline INNER(
     )
 
     return (
-        ws = COLLECT.result,
+        ws     = COLLECT.result,
+        direct = WORK.result,
     )
 }
 
@@ -604,7 +606,36 @@ func H_C01_nested(n0, n1, order int) {
 		want := append(append([]byte(`{"what":`), vrArray(ys)...), '}')
 		verifAssert(verifBytesEq(vrEncode(args), want), "C01: a merge inside a mapped pipeline collects exactly the forks of its own outer fork, in order")
 		verifCover("nested merge resolved")
+		// COLLECT echoes what it received
+		vrOuts[f.metadata] = LazyArgumentMap{"result": vrArray(ys)}
 	}
+	// the top-level outputs: one entry per outer element, each with the WORK
+	// results of that outer fork (directly, and as collected)
+	outs, _, err := w.ps.node.resolvePipelineOutputs(nil)
+	verifAssert(err == nil && outs != nil, "C01: the pipeline's outputs resolve once every stage has finished")
+	if err != nil || outs == nil {
+		return
+	}
+	want := []byte(`{"r":[`)
+	for i := 0; i < 2; i++ {
+		ys := make([]json.RawMessage, ns[i])
+		for _, wf := range w.work.forks {
+			if int(wf.forkId[0].Id.(arrayIndexFork)) == i {
+				ys[int(wf.forkId[1].Id.(arrayIndexFork))] = vrOuts[wf.metadata]["result"]
+			}
+		}
+		if i > 0 {
+			want = append(want, ',')
+		}
+		want = append(want, `{"direct":`...)
+		want = append(want, vrArray(ys)...)
+		want = append(want, `,"ws":`...)
+		want = append(want, vrArray(ys)...)
+		want = append(want, '}')
+	}
+	want = append(want, `]}`...)
+	verifCover("nested pipeline outputs resolved")
+	verifAssert(verifBytesEq(vrEncode(outs), want), "C01: the outputs of a mapped pipeline are one entry per element it was mapped over, each holding that fork's results (also those merged from an inner mapped call)")
 }
 
 // ---- typed-map split, struct projection, disabled call, literals, pipeline outputs ----
@@ -1435,4 +1466,163 @@ func H_C04_projectedHolds(nkeys int) {
 	if e := f.fileParamMap[scratch]; e != nil {
 		verifAssert(e.args == nil, "C14: a file no argument names is not kept alive")
 	}
+}
+
+// ---- a mapped call inside a pipeline mapped over a run-time array of arrays ----
+
+const vrDynNestedSrc = `
+stage GEN(
+    in  int     n,
+    out int[][] result,
+    src comp    "bin",
+)
+
+stage ECHO(
+    in  int  what,
+    out int  result,
+    src comp "bin",
+)
+
+pipeline INNER(
+    in  int[] xs,
+    out int[] rs,
+)
+{
+    map call ECHO(
+        what = split self.xs,
+    )
+
+    return (
+        rs = ECHO.result,
+    )
+}
+
+pipeline TOP(
+    out INNER[] rs,
+    out int[][] flat,
+)
+{
+    call GEN(
+        n = 1,
+    )
+
+    map call INNER(
+        xs = split GEN.result,
+    )
+
+    return (
+        rs   = INNER,
+        flat = INNER.rs,
+    )
+}
+
+call TOP()
+`
+
+type vrDynNested struct {
+	ps        *Pipestance
+	gen, echo *Node
+	err       error
+}
+
+func vrDynNestedGraph() *vrDynNested {
+	disableUniquification = false
+	return verifCached("vrDynNestedGraph", func() any {
+		rt := &Runtime{Config: &RuntimeOptions{JobMode: "local", VdrMode: VdrDisable}, mrjob: "/m/mrjob", adaptersPath: "/m/adapters"}
+		_, _, ps, err := rt.instantiatePipeline([]byte(vrDynNestedSrc), "/m/p.mro", "ps", "/ps", nil, "none", nil, false, true, context.Background())
+		if err != nil {
+			return &vrDynNested{err: err}
+		}
+		return &vrDynNested{ps: ps, gen: ps.node.top.allNodes["ID.ps.TOP.GEN"], echo: ps.node.top.allNodes["ID.ps.TOP.INNER.ECHO"]}
+	}).(*vrDynNested)
+}
+
+// H_C01_dynamicNested(n0, n1, n2): GEN produced three arrays of n0, n1 and n2
+// arbitrary digits (n = 0: an empty array); the pipeline INNER is mapped over
+// them at run time, the stage ECHO inside it over each array's elements.
+//
+//	C07: the program (a two-dimensional array merged from nested map calls)
+//	     type-checks and instantiates.
+//	C01: each ECHO fork receives its element; the top-level outputs hold one
+//	     entry per outer element, each with exactly the results of that
+//	     element's ECHO forks, in order — as a struct per fork and as an array
+//	     of arrays.
+func H_C01_dynamicNested(n0, n1, n2 int) {
+	w := vrDynNestedGraph()
+	verifAssert(w.err == nil, "C07/C01: a well-typed program with nested map calls returning a two-dimensional array instantiates")
+	if w.err != nil {
+		return
+	}
+	vrOuts = map[*Metadata]LazyArgumentMap{}
+	ns := []int{n0, n1, n2}
+	xs := make([][]json.RawMessage, len(ns))
+	outer := make([]json.RawMessage, len(ns))
+	for i, n := range ns {
+		xs[i] = make([]json.RawMessage, n)
+		for j := range xs[i] {
+			xs[i][j] = vrDigit("element")
+		}
+		outer[i] = vrArray(xs[i])
+	}
+	vrOuts[w.gen.forks[0].metadata] = LazyArgumentMap{"result": vrArray(outer)}
+	w.echo.expandForks(true)
+	verifCover("dynamic nested forks expanded")
+	total := n0 + n1 + n2
+	ys := make([][]json.RawMessage, len(ns))
+	for i, n := range ns {
+		ys[i] = make([]json.RawMessage, n)
+	}
+	count := 0
+	for _, f := range w.echo.forks {
+		if len(f.forkId) != 2 {
+			verifAssert(false, "C01/C03: an inner fork is identified by its outer and inner index")
+			return
+		}
+		oi, ok1 := f.forkId[0].Id.(arrayIndexFork)
+		ii, ok2 := f.forkId[1].Id.(arrayIndexFork)
+		if !ok1 || !ok2 {
+			// (the placeholder fork of an empty inner array)
+			continue
+		}
+		o, k := int(oi), int(ii)
+		if o < 0 || o >= len(ns) || k < 0 || k >= ns[o] {
+			verifAssert(false, "C01/C03: fork indices are within the arrays")
+			return
+		}
+		_, args, err := w.echo.resolveInputs(f.forkId, false)
+		verifAssert(err == nil, "C01: the inputs of every inner fork resolve")
+		if err != nil {
+			return
+		}
+		want := append(append([]byte(`{"what":`), xs[o][k]...), '}')
+		verifAssert(verifBytesEq(vrEncode(args), want), "C01: the fork for element j of outer fork i receives exactly that element")
+		verifAssert(ys[o][k] == nil, "C01/C03: no element is processed twice")
+		ys[o][k] = vrDigit("echo result")
+		vrOuts[f.metadata] = LazyArgumentMap{"result": ys[o][k]}
+		count++
+	}
+	verifAssert(count == total, "C01/C03: the inner map call has one fork per element of every inner array")
+	if count != total {
+		return
+	}
+	outs, _, err := w.ps.node.resolvePipelineOutputs(nil)
+	verifAssert(err == nil && outs != nil, "C01: the pipeline's outputs resolve once every stage has finished")
+	if err != nil || outs == nil {
+		return
+	}
+	flat := []byte(`{"flat":[`)
+	rs := []byte(`,"rs":[`)
+	for i := range ns {
+		if i > 0 {
+			flat = append(flat, ',')
+			rs = append(rs, ',')
+		}
+		flat = append(flat, vrArray(ys[i])...)
+		rs = append(rs, `{"rs":`...)
+		rs = append(rs, vrArray(ys[i])...)
+		rs = append(rs, '}')
+	}
+	want := append(append(append(flat, ']'), rs...), `]}`...)
+	verifCover("dynamic nested outputs resolved")
+	verifAssert(verifBytesEq(vrEncode(outs), want), "C01: the outputs of a pipeline mapped over a run-time array are one entry per element, each holding the results of that element's inner forks")
 }
